@@ -318,6 +318,8 @@ func runScript(s Script) (res Result) {
 		}
 	}
 	if s.BurstAt == "idle" && s.Burst > 0 {
+		// "idle" only at the moment of writing: whatever the script does next overlaps with the listener delivering them
+		res.InFlight = s.Burst
 		burst(s.Burst)
 	}
 	switch s.Bulk {
